@@ -20,4 +20,6 @@ def _jobs(tier):
             dict(name="ping", fn="ping_start", args=[], collect_models=4, fp_range=FP_RANGE, expect=["PING from_ping_values reproduces the value"]),
             dict(name="account_reply", fn="account_reply_start", args=[], collect_models=3, fp_range=FP_RANGE),
             dict(name="zero", fn="zero_start", args=[], collect_models=1, fp_range=FP_RANGE),
-            dict(name="from_values", fn="from_values_total", args=[], collect_models=2, fp_range=FP_RANGE)]
+            dict(name="from_values", fn="from_values_total", args=[], collect_models=2, fp_range=FP_RANGE),
+            dict(name="second_generation", fn="second_generation", args=[], collect_models=1, fp_range=FP_RANGE,
+                 expect=["second INIT from_init_values reproduces the value"])]
